@@ -251,13 +251,14 @@ def main():
             rep = replay(path)
             v['replay'] = rep
             if rep['status'] == 'reproduced' or rep['status'] == 'unavailable':
-                nviol += 1; rc = max(rc, 1) if rc != 2 else 2
+                nviol += 1; rc = max(rc, 1)
                 print('VIOLATION property=%s replay=%s' % (prop, path))
                 print('   scenario %s oracle %s clauses %s  (replay: %s)' % (r['name'], v['oracle'], ','.join(v['clauses'][:3]), rep['status']))
             else:
                 rc = 2
                 print('ENCODING-MISMATCH property=%s scenario=%s: solver schedule did not reproduce on the real build (%s)' % (prop, r['name'], rep.get('detail', '')[:200]))
-    if rc == 2: nviol_out = nviol
+    # a violation that reproduced on the real build is reported as such even if another scenario was inconclusive
+    if nviol > 0: rc = 1
     write_evidence(evpath, prop, tier, seed, results, time.time() - t0, nviol, mirkey=key, nvalid=nvalid)
     print('[%s] %s  wall %.1fs' % (prop, {0: 'PASS', 1: 'VIOLATION', 2: 'INCONCLUSIVE'}[rc], time.time() - t0))
     sys.exit(rc)
